@@ -476,11 +476,11 @@ WHYS = ["utf8", "utf8-beyond", "escape", "escape-range", "prefix-mix", "delimite
 
 
 def spec_devs(cfg):
-    txt = open(os.path.join(vlib.SPEC, cfg)).read()
+    txt = open(os.path.join(vlib.SPEC, cfg)).read()      # os.path.join keeps an absolute cfg path
     return re.findall(r'"(\w+)"', re.search(r"Devs\s*=\s*\{([^}]*)\}", txt).group(1))
 
 
-def vacuity_guard(ctx, cases):
+def vacuity_guard(ctx, cases, cfg):
     """-coverage is unusable on this spec (three orders of magnitude slower), so non-vacuity is established from the emitted
     behaviours: every chunk of every family was enumerated, every verdict class and reject reason occurs, and every deviation
     that is switched on changes the model's answer somewhere in the exhaustive families."""
@@ -488,7 +488,7 @@ def vacuity_guard(ctx, cases):
     missing = [(f, t, p) for f in FAMILIES for t in vlib.TARGETS for p in ("", "u8", "u", "U", "L") if (f, t, p) not in chunks]
     whys = {c["decl"].get("why") for c in cases}
     fired = {d for c in cases for d in c["fired"]}
-    lacking = [w for w in WHYS if w not in whys] + [d for d in spec_devs("MC_Lit_quick.cfg") if d not in fired]
+    lacking = [w for w in WHYS if w not in whys] + [d for d in spec_devs(cfg) if d not in fired]
     kinds = {c["decl"]["o"] for c in cases}
     if missing or lacking or kinds != {"ok", "reject", "unspec", "weak"}:
         raise vlib.MachineryError("vacuity guard: chunks never enumerated %s, classes never produced %s, verdicts %s" % (missing[:5], lacking, kinds))
@@ -496,8 +496,23 @@ def vacuity_guard(ctx, cases):
     ctx.cov["classes_seen"] = sorted(w for w in whys if w)
 
 
+def private_build(ctx):
+    """vlib.build's cache entry is evicted when somebody else rebuilds after /repo changed; keep our own copy of the binary."""
+    import shutil
+    for attempt in range(3):
+        src = vlib.build("plain")
+        d = ctx.path("bin")
+        os.makedirs(d, exist_ok=True)
+        try:
+            shutil.copy2(os.path.join(src, "cproc-qbe"), os.path.join(d, "cproc-qbe"))
+            return d
+        except OSError:
+            continue
+    raise vlib.MachineryError("could not obtain a build of cproc-qbe")
+
+
 def run(ctx):
-    obj = vlib.build("plain")
+    obj = private_build(ctx)
     ctx.cov["rule"] = (
         "TLC enumerates Lit.tla's case families (all 256 single-byte constants/strings, boundary code points +-1 in every "
         "UTF-8 length incl. overlong/truncated/bad-continuation forms, octal escapes of 1-3 digits x followers 0 7 8 9 a, hex "
@@ -506,11 +521,23 @@ def run(ctx):
         "with Decl(). non-trivial = not accepted-plain-ASCII (has escape, non-ASCII byte, several parts or a non-ok verdict)")
     stats = {}
     cfg = "MC_Lit_quick.cfg" if ctx.quick else "MC_Lit_thorough.cfg"
+    simcfg = "MC_Lit_sim.cfg"
+    if "VERIF_C14_DEVS" in os.environ:
+        # override the set of deviations switched on (comma separated, empty = none): what the check demands once the
+        # corresponding defects are repaired.  Used to validate proposed patches on a scratch copy (VERIF_REPO).
+        devs = [d for d in os.environ["VERIF_C14_DEVS"].split(",") if d]
+        def derive(name):
+            txt = open(os.path.join(vlib.SPEC, name)).read()
+            txt = re.sub(r"Devs\s*=\s*\{[^}]*\}", "Devs = {%s}" % ", ".join('"%s"' % d for d in devs), txt)
+            out = ctx.path(name)
+            open(out, "w").write(txt)
+            return out
+        cfg, simcfg = derive(cfg), derive(simcfg)
     r = ctx.tlc_must_pass("Lit", cfg, workers=8 if ctx.quick else 16, timeout=1500)
     cases = load_cases(r)
     if len(cases) != r.distinct - 90:
         raise vlib.MachineryError("expected one VCASE per case state: %d vs %d" % (len(cases), r.distinct - 90))
-    vacuity_guard(ctx, cases)
+    vacuity_guard(ctx, cases, cfg)
     audit_targets(ctx, cases)
     audit(ctx, cases, 600 if ctx.quick else 6000)
     obs = observe_all(ctx, obj, cases)
@@ -522,9 +549,9 @@ def run(ctx):
 
     # random literals: TLC -simulate drives Lit.tla's generator (Mode = "sim").  Simulation workers of one TLC share the
     # random stream, so parallelism comes from several single-worker TLC processes with different seeds.
-    procs, traces = (2, 10) if ctx.quick else (16, 60)
+    procs, traces = (2, 10) if ctx.quick else (12, 50)
     seeds = [(ctx.seed * 1000 + i) & 0x7FFFFFFF for i in range(procs)]
-    runs = vlib.pmap(lambda sd: ctx.tlc("Lit", "MC_Lit_sim.cfg", workers=1, simulate=traces, depth=51, seed=sd, timeout=1200), seeds, workers=8)
+    runs = vlib.pmap(lambda sd: ctx.tlc("Lit", simcfg, workers=1, simulate=traces, depth=51, seed=sd, timeout=1200), seeds, workers=8)
     rnd, seen = [], set()
     for r2 in runs:
         if not r2.ok:
@@ -551,7 +578,7 @@ def replay(ctx, path):
     case = rec["case"]
     c = {"ctx": case["ctx"], "targ": case["targ"], "parts": case["parts"], "decl": case["expected"],
          "impl": case["model_with_deviations"], "fired": case["fired"]}
-    obj = vlib.build("plain")
+    obj = private_build(ctx)
     o = run_single(obj, c)
     print("source  :", lit_bytes(c))
     print("expected:", json.dumps(c["decl"]))
